@@ -49,7 +49,7 @@ def wellformed(out, model, t_end=None, truncated=False, tag=""):
         tot = np.sum(vf, axis=1)
         if np.any(tot > 1 + 1e-9):
             i = int(np.argmax(tot))
-            out.fail("total_fraction_above_one", "%stotal precipitate fraction %r > 1 at step %d" % (tag, float(tot[i]), i), step=i)
+            out.fail("total_fraction_above_one", "%stotal precipitate fraction %r > 1 at step %d" % (tag, float(tot[i]), i), step=i, total=float(np.max(tot)))
     comp = np.asarray(pd.composition, dtype=float)
     if np.all(np.isfinite(comp)) and (np.any(comp < 0) or np.any(comp > 1)):
         i = int(np.argwhere((comp < 0) | (comp > 1))[0][0])
@@ -248,6 +248,22 @@ def _wide_scenario(draw):
     if draw(st.integers(0, 3)) == 3:
         sc["reset_rerun"] = True          # after the solve calls: reset() and one more run on the same model
     return sc
+
+
+def pred_volume_limit_disabled(case, v):
+    """The step-size limit on the volume change per step is switched off (constraints.checkVolumePre = False): nothing then bounds the
+    volume a nucleation burst creates in one explicit step, the matrix is emptied (composition clamped), everything dissolves in
+    the next step, and the bursts grow until the phases together claim more than the whole volume.  Each phase is capped at 1 by
+    the model, so the total cannot exceed the number of phases."""
+    sc = case.get("sc", case)
+    cons = sc.get("constraints") or {}
+    if cons.get("checkVolumePre", True) is not False:
+        return False
+    tot = (v.get("data") or {}).get("total")
+    return tot is None or tot <= len(sc["phases"]) * (1 + 1e-12)
+
+
+PREDICATES = {"volume_step_limit_disabled": pred_volume_limit_disabled}
 
 
 def clauses():
